@@ -12,6 +12,10 @@ PROP = "C15"
 #    ValueError): the model runs with fixed=true and the oracle demands the full statement, no known class accepted.
 # 0: the code before them: model with fixed=false, the classes C15-F1..F3 are recognised (if listed in known_findings).
 FIXED = int(os.environ.get("VERIF_C15_FIXED", "1"))
+# 1: /repo contains fix-F4 (the short_base_tag setter refreshes tag_terms).  0: it does not: after expand_defs() a
+#    Def-expand tag still carries the schema path of Def; the model is given these stale terms (it models the code that
+#    exists) and the oracle accepts exactly that class as C15-F4 (while it is listed in known_findings.json).
+FIXED_F4 = int(os.environ.get("VERIF_C15_FIXED_F4", "1"))   # fix commit c19994c is in /repo
 MODEL_DEPTH = 1000      # nesting depth handed to the model (fixed=true); deeper inputs are not compared, see TRUSTED
 COQ_TARGETS = ["Props/C15.vo", "Extract/ExtractC15.vo"]
 TRUSTED = [
@@ -24,6 +28,10 @@ TRUSTED = [
     "from its own reading of HED8.3.0.xml (xml.etree), never from hed-python, so a wrong tag_terms/short_tag in "
     "hed-python shows up as a disagreement",
     "str.casefold and the token regex are modelled for ASCII text only; generated queries/annotations are ASCII",
+    "Model/QueryEdit.v models HedGroup.append / HedGroup.replace on the tree and the never-updated source text; tied "
+    "by running the model on (parsed base annotation + the same edit history) against the implementation object. "
+    "HedGroup.remove, expand_defs, shrink_defs, replace_placeholder, sorted/sort, copy, _contents and "
+    "from_hed_strings are not modelled: for those the model (and the oracle) is given the content the object prints",
     "Python's actual recursion limit is not modelled: the model takes the available nesting depth as a parameter "
     "(theorems hold for every depth); generated query nesting stays below 60 levels, and the compile outcome of "
     "corpus entries nested 200+ levels is checked by the oracle only (ok or ValueError), not compared with the model",
@@ -33,7 +41,10 @@ ASSUMPTIONS = [
     "like a schema term, extensions, and extensions that are schema terms (not identified: no schema path, short "
     "form = text); nesting depth <= 4; query depth <= 4",
     "the independent set-semantics evaluator, the metamorphic laws, repeated-search / purity / batch-interface "
-    "checks run on the implementation only (testing)",
+    "checks and 'a built or edited annotation answers like the same annotation parsed from its own text' run on the "
+    "implementation only (testing); 70% of the random cases build the annotation through the API",
+    "removals with an equal EARLIER sibling are not generated: HedGroup.remove (list.remove, by equality) takes the "
+    "earlier one out and orphans the requested one -- an editing defect outside this property",
     "C15_sibling_order_invariant / _search assume the group identities of the annotation are pairwise different "
     "(object identity; the harness numbers nodes in pre-order)",
     "the *_prefix_* theorems are the record of the code before the fix: commits (fixed=false): refuted sibling "
@@ -43,7 +54,7 @@ ASSUMPTIONS = [
 # ---------------------------------------------------------------- vocabulary (independent of hed-python)
 
 SHORTS = ["Red", "Blue", "Green", "Event", "Sensory-event", "Agent-action", "Item", "Object", "Label", "Def", "ID",
-          "Red-color"]
+          "Red-color", "Def-expand"]
 # text as written in an annotation -> (schema node (short name) or None when the tag is not identified, value/extension)
 FORMS = {
     "Red": ("Red", None), "red": ("Red", None), "Blue": ("Blue", None), "Green": ("Green", None),
@@ -68,9 +79,14 @@ EXT_FORMS = {
 }
 # an "extension" that is itself a schema term: the tag is not identified (no schema path at all)
 UNID_FORMS = {"Red-color/Event": (None, None), "Object/Red": (None, None), "Agent-action/Item": (None, None)}
+# spellings that only occur in annotations built / edited through the API (Def expansion, placeholder filling)
+API_FORMS = {"Def/MyDef": ("Def", "MyDef"), "Def/Val/abc": ("Def", "Val/abc"), "Def-expand/MyDef": ("Def-expand", "MyDef"),
+             "Def-expand/Val/abc": ("Def-expand", "Val/abc"), "Label/#": ("Label", "#")}
+DEFINITIONS = "(Definition/MyDef,(Red,Object)),(Definition/Val/#,(Label/#,Blue))"
 FORMS.update(VALUE_FORMS)
 FORMS.update(EXT_FORMS)
 FORMS.update(UNID_FORMS)
+FORMS.update(API_FORMS)
 TAG_POOL = (["Red", "Red", "Blue", "Blue", "Green", "Event", "Sensory-event", "Event/Sensory-event", "Agent-action",
              "Item", "Object", "Item/Object", "Label/abc", "Label/ABC", "Label/abd", "red"] * 2
             + list(VALUE_FORMS) + list(EXT_FORMS) + list(UNID_FORMS))
@@ -106,7 +122,7 @@ def schema_paths():
             if any(ch.find("name").text == "#" for ch in par.findall("node")):
                 takes_value.add(par.find("name").text)
         # fail closed: the hand-written table of spellings must agree with the schema file
-        for text, (node, suffix) in VALUE_FORMS.items():
+        for text, (node, suffix) in list(VALUE_FORMS.items()) + list(API_FORMS.items()):
             if node not in takes_value:
                 raise RuntimeError(f"{text}: {node} takes no value in the schema")
         for text, (node, suffix) in EXT_FORMS.items():
@@ -120,9 +136,12 @@ def schema_paths():
     return _paths
 
 
-def tag_info(text):
-    """(terms, short_tag, org_tag) of an annotation tag, from the harness' own table."""
+def tag_info(text, stale=False):
+    """(terms, short_tag, org_tag) of an annotation tag, from the harness' own table.
+    stale: the tag_terms hed-python keeps after expand_defs() without fix-F4 (a Def-expand tag with Def's path)."""
     node, val = FORMS[text]
+    if stale and node == "Def-expand":
+        return [p.casefold() for p in schema_paths()["Def"]], node + "/" + val, text
     if node is None:            # not identified: no schema path; the short form is the text itself
         return [], text, text
     terms = [p.casefold() for p in schema_paths()[node]]      # the schema NODE only, never the value/extension
@@ -151,13 +170,249 @@ def ann_text(children):
     return ",".join(c[1] if c[0] == "T" else "(" + ann_text(c[1]) + ")" for c in children)
 
 
+def parse_text(text):
+    """Annotation text (as printed by str(HedString): short forms) -> tree; every tag must be a known spelling."""
+    stack = [[]]
+    cur = ""
+
+    def flush():
+        nonlocal cur
+        t = cur.strip()
+        cur = ""
+        if t:
+            if t not in FORMS:
+                raise ValueError("unknown tag spelling " + repr(t))
+            stack[-1].append(("T", t))
+    for c in text:
+        if c == "(":
+            flush()
+            stack.append([])
+        elif c == ")":
+            flush()
+            g = stack.pop()
+            stack[-1].append(("G", g))
+        elif c == ",":
+            flush()
+        else:
+            cur += c
+    flush()
+    if len(stack) != 1:
+        raise ValueError("unbalanced annotation text " + repr(text))
+    return stack[0]
+
+
+# ---------------------------------------------------------------- annotations built or edited through the API
+# route = {"kind": ..., ...} (JSON-able).  The object is built from case["tree"] by the route; the content the
+# queries must see is whatever the object PRINTS afterwards (parse_text(str(obj))), never its stored source text.
+
+def _sim_get(tree, path):
+    ch = tree
+    for i in path[:-1]:
+        ch = ch[i][1]
+    return ch, path[-1]
+
+
+def _all_paths(children, prefix=()):
+    out = []
+    for i, c in enumerate(children):
+        out.append(prefix + (i,))
+        if c[0] == "G":
+            out += _all_paths(c[1], prefix + (i,))
+    return out
+
+
+def _group_paths(children, prefix=()):
+    out = [prefix]
+    for i, c in enumerate(children):
+        if c[0] == "G":
+            out += _group_paths(c[1], prefix + (i,))
+    return out
+
+
+def _mut(children):
+    return [c if c[0] == "T" else ["G", _mut(c[1])] for c in children]
+
+
+def _freeze(children):
+    return [c if c[0] == "T" else ("G", _freeze(c[1])) for c in children]
+
+
+def gen_new_node(rng):
+    if rng.random() < 0.7:
+        return ("T", rng.choice(TAG_POOL))
+    return ("G", gen_children(rng, rng.randint(0, 1)))
+
+
+def gen_edits(rng, tree, n):
+    """n random edits (append / replace / remove by child-index path), simulated on the tree so that paths stay valid."""
+    cur = _mut(tree)
+    ops = []
+    for _ in range(n):
+        kind = rng.choice(["append", "append", "replace", "replace", "remove"])
+        if kind == "append":
+            gp = rng.choice(_group_paths(cur))
+            node = gen_new_node(rng)
+            ch = cur
+            for i in gp:
+                ch = ch[i][1]
+            ch.append(_mut([node])[0])
+            ops.append(["append", list(gp), node])
+        else:
+            paths = _all_paths(cur)
+            if not paths:
+                continue
+            pth = rng.choice(paths)
+            ch, i = _sim_get(cur, pth)
+            if kind == "replace":
+                node = gen_new_node(rng)
+                ch[i] = _mut([node])[0]
+                ops.append(["replace", list(pth), node])
+            else:
+                if len(ch) < 2:       # never empty a group (HedGroup.remove would prune it) nor the annotation
+                    continue
+                # HedGroup.remove uses list.remove (equality): with an equal EARLIER sibling it takes that one out
+                # and orphans the requested one -- an editing defect outside this property; such removals are not generated
+                if any(node_equal(ch[k], ch[i]) for k in range(i)):
+                    continue
+                del ch[i]
+                ops.append(["remove", list(pth)])
+    return ops
+
+
+def gen_route(rng, tree):
+    x = rng.random()
+    if x < 0.30:
+        return {"kind": "parse"}
+    if x < 0.38:
+        k = rng.randint(1, max(1, min(3, len(tree))))
+        cuts = sorted(rng.sample(range(1, len(tree)), k - 1)) if len(tree) > 1 else []
+        return {"kind": "from_strings", "cuts": cuts}
+    if x < 0.46:
+        return {"kind": "contents", "fresh_tags": rng.random() < 0.5}
+    if x < 0.52:
+        return {"kind": rng.choice(["copy", "sorted", "sort"])}
+    if x < 0.64:
+        return {"kind": "expand", "n": rng.randint(1, 3), "seed": rng.randrange(1 << 30), "shrink": rng.random() < 0.2}
+    if x < 0.72:
+        return {"kind": "placeholder", "n": rng.randint(1, 2), "seed": rng.randrange(1 << 30)}
+    ops = gen_edits(rng, tree, rng.randint(1, 3))
+    return {"kind": "edits", "ops": ops, "search_between": rng.random() < 0.5,
+            "then": rng.choice([None, None, "copy", "contents"])}
+
+
+def insert_tags(rng, tree, texts):
+    """Insert the given tag spellings at random places of the tree."""
+    cur = _mut(tree)
+    for t in texts:
+        gp = rng.choice(_group_paths(cur))
+        ch = cur
+        for i in gp:
+            ch = ch[i][1]
+        ch.insert(rng.randrange(len(ch) + 1), ("T", t))
+    return _freeze(cur)
+
+
+_defs = None
+
+
+def def_dict():
+    global _defs
+    if _defs is None:
+        from hed.models.definition_dict import DefinitionDict
+        _defs = DefinitionDict(DEFINITIONS, schema())
+    return _defs
+
+
+def _impl_node(spec):
+    from hed.models.hed_string import HedString
+    from hed.models.hed_tag import HedTag
+    if spec[0] == "T":
+        return HedTag(spec[1], schema())
+    return HedString("(" + ann_text(spec[1]) + ")", schema()).children[0]
+
+
+def _by_path(hs, path):
+    g = hs
+    for i in path:
+        g = g.children[i]
+    return g
+
+
+def build_object(tree, route, probe=None):
+    """The annotation object of a case, built from the tree along the route.  [probe(hs)] is called on intermediate
+    objects when the route asks for searches between the edits."""
+    from hed.models.hed_string import HedString
+    from hed.models.hed_group import HedGroup
+    from hed.models.hed_tag import HedTag
+    kind = route["kind"]
+    tree = list(tup(tree))
+    if kind == "parse":
+        return HedString(ann_text(tree), schema())
+    if kind == "from_strings":
+        cuts = [0] + list(route["cuts"]) + [len(tree)]
+        parts = [HedString(ann_text(tree[a:b]), schema()) for a, b in zip(cuts, cuts[1:]) if b > a]
+        return HedString.from_hed_strings(parts)
+    if kind == "contents":
+        if route.get("fresh_tags"):
+            contents = [_impl_node(c) for c in tree]
+        else:
+            contents = list(HedString(ann_text(tree), schema()).children)
+        return HedString("", schema(), _contents=contents)
+    if kind in ("copy", "sorted", "sort"):
+        hs = HedString(ann_text(tree), schema())
+        if kind == "copy":
+            return hs.copy()
+        if kind == "sorted":
+            return hs.sorted()
+        hs.sort()
+        return hs
+    if kind == "expand":
+        rng = random.Random(route["seed"])
+        t2 = insert_tags(rng, tree, [rng.choice(["Def/MyDef", "Def/Val/abc"]) for _ in range(route["n"])])
+        hs = HedString(ann_text(t2), schema(), def_dict())
+        if probe:
+            probe(hs)
+        hs.expand_defs()
+        if route.get("shrink"):
+            if probe:
+                probe(hs)
+            hs.shrink_defs()
+        return hs
+    if kind == "placeholder":
+        rng = random.Random(route["seed"])
+        t2 = insert_tags(rng, tree, ["Label/#"] * route["n"])
+        hs = HedString(ann_text(t2), schema())
+        if probe:
+            probe(hs)
+        for tag in hs.get_all_tags():
+            tag.replace_placeholder("abc")
+        return hs
+    if kind == "edits":
+        hs = HedString(ann_text(tree), schema())
+        for op in route["ops"]:
+            if route.get("search_between") and probe:
+                probe(hs)
+            if op[0] == "append":
+                _by_path(hs, op[1]).append(_impl_node(tup(op[2])))
+            elif op[0] == "replace":
+                HedGroup.replace(_by_path(hs, op[1]), _impl_node(tup(op[2])))
+            else:
+                hs.remove([_by_path(hs, op[1])])
+        if route.get("then") == "copy":
+            hs = hs.copy()
+        elif route.get("then") == "contents":
+            hs = HedString("", schema(), _contents=list(hs.children))
+        return hs
+    raise ValueError(kind)
+
+
 def shuffle_tree(rng, children):
     ch = [c if c[0] == "T" else ("G", shuffle_tree(rng, c[1])) for c in children]
     rng.shuffle(ch)
     return ch
 
 
-def model_tree(children):
+def model_tree(children, stale=False):
     """Root node s-expression with pre-order identities (root = 0)."""
     cnt = [0]
 
@@ -165,10 +420,33 @@ def model_tree(children):
         cnt[0] += 1
         i = cnt[0]
         if c[0] == "T":
-            terms, short, org = tag_info(c[1])
+            terms, short, org = tag_info(c[1], stale)
             return ["T", i, [C.cps(t) for t in terms], C.cps(short), C.cps(org)]
         return ["G", i, [node(x) for x in c[1]]]
     return ["G", 0, [node(c) for c in children]]
+
+
+def model_new_node(spec, cnt):
+    """Model node for a member created through the API; identities continue after those of the parsed annotation."""
+    cnt[0] += 1
+    i = cnt[0]
+    if spec[0] == "T":
+        terms, short, org = tag_info(spec[1])
+        return ["T", i, [C.cps(t) for t in terms], C.cps(short), C.cps(org)]
+    return ["G", i, [model_new_node(x, cnt) for x in spec[1]]]
+
+
+def model_steps(route, probe_query):
+    """The append / replace edits of an 'edits' route as model steps (None when the route has a remove)."""
+    if route.get("kind") != "edits" or any(op[0] == "remove" for op in route["ops"]):
+        return None
+    cnt = [500]
+    steps = []
+    for op in route["ops"]:
+        if route.get("search_between"):
+            steps.append(["Q", C.cps(probe_query)])
+        steps.append(["A" if op[0] == "append" else "R", list(op[1]), model_new_node(tup(op[2]), cnt)])
+    return steps
 
 
 def depth_of(children):
@@ -313,7 +591,7 @@ def q_rejected(q):
 class Ann:
     """Indexed annotation: groups (root = 0), children, parents; node ids pre-order."""
 
-    def __init__(self, children):
+    def __init__(self, children, stale=False):
         self.kids = {0: []}
         self.parent = {}
         self.tag = {}
@@ -325,7 +603,7 @@ class Ann:
             self.parent[i] = p
             self.kids[p].append(i)
             if c[0] == "T":
-                self.tag[i] = tag_info(c[1])
+                self.tag[i] = tag_info(c[1], stale)
             else:
                 self.kids[i] = []
                 for x in c[1]:
@@ -398,8 +676,8 @@ def den(q, a, exact):
     raise ValueError(k)
 
 
-def set_verdict(q, children):
-    return bool(den(q, Ann(children), False))
+def set_verdict(q, children, stale=False):
+    return bool(den(q, Ann(children, stale), False))
 
 
 # ---------------------------------------------------------------- implementation side
@@ -424,30 +702,49 @@ def shape(hs):
 
 
 def impl_search_case(case):
-    """case = dict(ann=text, shuf=text, queries={name: text}).  Verdict of every query on both annotations,
-    twice, plus purity and the batch interface."""
+    """case = dict(tree, stree, route, shuf_seed, queries={name: text}).  Builds the annotation object along the
+    route, then: verdict of every query on the object (twice, and with a fresh handler), on the object re-parsed
+    from its own text, and on a sibling reordering; purity; the batch interface."""
     from hed.models.hed_string import HedString
     from hed.models.query_handler import QueryHandler
     from hed.models.query_service import search_hed_objs
-    r = {"v": {}, "vs": {}, "problems": []}
-    try:
-        hs = HedString(case["ann"], schema())
-        hs2 = HedString(case["shuf"], schema())
-    except Exception as e:  # noqa
-        r["problems"].append(("never-raises", "HedString: " + type(e).__name__))
-        return r
-    txt0, shape0 = str(hs), shape(hs)
-    handlers, names = [], []
+    r = {"v": {}, "vs": {}, "vr": {}, "problems": []}
+    route = case.get("route") or {"kind": "parse"}
+    compiled = {}
     for name, q in case["queries"].items():
         try:
-            h = QueryHandler(q)
+            compiled[name] = QueryHandler(q)
         except ValueError:
-            r["v"][name] = "ValueError"
-            r["vs"][name] = "ValueError"
-            continue
+            r["v"][name] = r["vs"][name] = r["vr"][name] = "ValueError"
         except Exception as e:  # noqa
-            r["v"][name] = r["vs"][name] = "exn:" + type(e).__name__
-            continue
+            r["v"][name] = r["vs"][name] = r["vr"][name] = "exn:" + type(e).__name__
+
+    def probe(obj):     # searches made BEFORE the annotation reaches its final content (history must not matter)
+        for h in compiled.values():
+            try:
+                h.search(obj)
+            except Exception:  # noqa
+                pass
+    try:
+        hs = build_object(case["tree"], route, probe)
+        text = str(hs)
+        if route["kind"] == "parse":
+            tree2, stree2 = case["tree"], case["stree"]
+        else:
+            tree2 = parse_text(text)
+            stree2 = shuffle_tree(random.Random(case.get("shuf_seed", 0)), tree2)
+            if not tree2:
+                raise ValueError("empty annotation")
+        hs2 = HedString(ann_text(stree2), schema())
+        hsr = HedString(text, schema())
+    except Exception as e:  # noqa
+        r["problems"].append(("harness-build", f"{route}: {type(e).__name__}: {e}"))
+        return r
+    r["tree2"], r["stree2"], r["text"] = tree2, stree2, text
+    txt0, shape0 = str(hs), shape(hs)
+    handlers, names = [], []
+    for name, h in compiled.items():
+        q = case["queries"][name]
         try:
             v1 = bool(h.search(hs))
             v2 = bool(h.search(hs))
@@ -456,10 +753,11 @@ def impl_search_case(case):
                 r["problems"].append(("repeated-search", f"{name}: {v1} {v2} {v3}"))
             r["v"][name] = v1
             r["vs"][name] = bool(h.search(hs2))
+            r["vr"][name] = bool(h.search(hsr))
             handlers.append(h)
             names.append(name)
         except Exception as e:  # noqa
-            r["v"][name] = r["vs"][name] = "exn:" + type(e).__name__
+            r["v"][name] = r["vs"][name] = r["vr"][name] = "exn:" + type(e).__name__
     if str(hs) != txt0 or shape(hs) != shape0:
         r["problems"].append(("search-pure", f"{txt0!r} -> {str(hs)!r}"))
     if handlers:
@@ -575,8 +873,17 @@ def make_case(rng, depth_a=None, depth_q=None, fixed=None):
     qs = {"A": A, "B": B, "C": Cq,
           "A&&B": ("and", "&&", A, B), "B&&A": ("and", "&&", B, A), "A||B": ("or", A, B),
           "(A&&B)&&C": ("and", "&&", ("and", "&&", A, B), Cq), "A&&(B&&C)": ("and", "&&", A, ("and", "&&", B, Cq))}
+    route = (fixed or {}).get("route") or ({"kind": "parse"} if fixed else gen_route(rng, ann))
     return {"tree": ann, "stree": shuf, "ann": ann_text(ann), "shuf": ann_text(shuf), "qast": qs,
+            "route": route, "shuf_seed": rng.randrange(1 << 30), "base_tree": ann,
             "queries": {k: q_text(v) for k, v in qs.items()}}
+
+
+def adopt_built(case, r):
+    """After the implementation run: the content of a built / edited annotation is what the object printed."""
+    if "tree2" in r:
+        case["tree"], case["stree"] = list(tup(r["tree2"])), list(tup(r["stree2"]))
+        case["ann"], case["shuf"] = ann_text(case["tree"]), ann_text(case["stree"])
 
 
 def f1_class(case, name):
@@ -585,14 +892,47 @@ def f1_class(case, name):
     return q_has(case["qast"][name], ("not",)) and (has_equal_groups(case["tree"]) or has_equal_groups(case["stree"]))
 
 
+def stale_route(case):
+    """The object was built by expand_defs() (not shrunk back) and /repo lacks fix-F4."""
+    rt = case.get("route") or {}
+    return (not FIXED_F4) and rt.get("kind") == "expand" and not rt.get("shrink")
+
+
+def q_bare_terms(q):
+    if q[0] == "term":
+        return {q[1].casefold()}
+    out = set()
+    for x in q[1:]:
+        if isinstance(x, tuple):
+            out |= q_bare_terms(x)
+    return out
+
+
+def f4_class(case, name, r):
+    """C15-F4: the annotation object went through expand_defs(), the query has the bare term Def or Def-expand, and
+    the three verdicts are exactly those of a Def-expand tag that kept Def's schema path: object = set semantics with
+    the stale terms, re-parsed text and reordering (parsed) = set semantics with the true terms."""
+    if not stale_route(case) or not (q_bare_terms(case["qast"][name]) & {"def", "def-expand"}):
+        return False
+    q = case["qast"][name]
+    return (r["v"].get(name) == set_verdict(q, case["tree"], stale=True)
+            and r["vs"].get(name) == set_verdict(q, case["stree"])
+            and r.get("vr", {}).get(name) == set_verdict(q, case["tree"]))
+
+
 def check_case(case, r, res, stats):
     """Implementation-side oracle: every clause of the statement on the implementation's verdicts."""
     v, vs = r["v"], r["vs"]
     base = {"annotation": case["ann"], "reordered": case["shuf"], "queries": case["queries"],
-            "replay_case": {"tree": case["tree"], "stree": case["stree"], "qast": case["qast"]}}
+            "built_by": case.get("route", {"kind": "parse"}), "built_from": ann_text(case.get("base_tree", case["tree"])),
+            "replay_case": {"tree": case.get("base_tree", case["tree"]), "stree": case["stree"], "qast": case["qast"],
+                            "route": case.get("route", {"kind": "parse"}), "shuf_seed": case.get("shuf_seed", 0)}}
 
     def rep(clause, name, detail, f1_ok=False):
         fid = "C15-F1" if (not FIXED and f1_ok and f1_class(case, name)) else None
+        if fid is None and clause in ("sibling-order", "built-annotation-equals-reparsed", "documented-semantics",
+                                      "documented-semantics-term-modes") and f4_class(case, name, r):
+            fid = "C15-F4"
         stats["oracle_failures"] += 1
         res.report(clause, dict(base, query=case["queries"].get(name, name)), detail, fid=fid)
     for clause, detail in r["problems"]:
@@ -611,6 +951,10 @@ def check_case(case, r, res, stats):
             continue
         if vs[name] != x:
             rep("sibling-order", name, f"{x} vs reordered {vs[name]}", f1_ok=True)
+        if r.get("vr", {}).get(name, x) != x:
+            rep("built-annotation-equals-reparsed", name,
+                f"on the object built by {case.get('route', {}).get('kind')}: {x}; on the same annotation parsed from "
+                f"its own text {case['ann']!r}: {r['vr'][name]}")
         for tree, got, tag in ((case["tree"], x, ""), (case["stree"], vs[name], " (reordered)")):
             want = set_verdict(q, tree)
             if want != got:
@@ -677,6 +1021,19 @@ def run(tier, seed, res, model_ok=True, proof_ok=True):
             ([("T", "Label/a/Red"), ("T", "Item/Redish")], ("term", "Red"), ("term", "Redish"), ("star", "Label/a/")),
             ([("T", "Red-color/Event")], ("term", "Event"), ("term", "Red-color"), ("quoted", "Red-color/Event"))]:
         cases.append(make_case(rng, fixed={"ann": ann, "shuf": shuffle_tree(rng, ann), "A": A, "B": B, "C": Cq}))
+    # annotations built / edited through the API: what was added afterwards must be visible to every term mode
+    base = [("T", "Sensory-event"), ("G", [("T", "Green"), ("T", "Object")]), ("T", "Label/abd")]
+    for route in [{"kind": "expand", "n": 2, "seed": 1}, {"kind": "placeholder", "n": 1, "seed": 2},
+                  {"kind": "edits", "ops": [["append", [1], ("T", "Red")]], "search_between": True, "then": None},
+                  {"kind": "edits", "ops": [["replace", [1, 0], ("T", "Red")], ["remove", [2]]], "search_between": False,
+                   "then": "contents"},
+                  {"kind": "contents", "fresh_tags": True}, {"kind": "from_strings", "cuts": [1]}, {"kind": "sorted"}]:
+        cases.append(make_case(rng, fixed={"ann": base, "shuf": base, "A": ("quoted", "Red"), "B": ("star", "Label/ab"),
+                                           "C": ("exact", "Label/abc"), "route": route}))
+    # witness of C15-F4 (kept as a regression after the fix)
+    cases.append(make_case(rng, fixed={"ann": [("T", "Green")], "shuf": [("T", "Green")], "A": ("term", "Def"),
+                                       "B": ("term", "Def-expand"), "C": ("star", "Def-e"),
+                                       "route": {"kind": "expand", "n": 1, "seed": 3}}))
     # exhaustive small layer: every spelling of a tag (alone, or alone in a group) x every atomic query
     atoms = ([("term", t) for t in sorted(set(BARE))] + [("quoted", t) for t in QUOTED] + [("exact", t) for t in SLASH]
              + [("star", t) for t in STAR])
@@ -700,29 +1057,43 @@ def run(tier, seed, res, model_ok=True, proof_ok=True):
 
     stats = {"oracle_failures": 0}
     with Pool(int(C.JOBS)) as pool:
-        impl = pool.map(impl_search_case, [{"ann": c["ann"], "shuf": c["shuf"], "queries": c["queries"]} for c in cases],
+        impl = pool.map(impl_search_case, [{"tree": c["tree"], "stree": c["stree"], "route": c["route"],
+                                            "shuf_seed": c["shuf_seed"], "queries": c["queries"]} for c in cases],
                         chunksize=50)
         impl_c = pool.map(impl_compile, soup, chunksize=500)
 
     for c, r in zip(cases, impl):
+        adopt_built(c, r)
         check_case(c, r, res, stats)
     for q, got in zip(soup, impl_c):
         check_compile(q, got, res, stats)
 
     disagreements = 0
     pairs = 0
+    edited_pairs = 0
     if model_ok:
         exe = C.build_driver("c15")
         lines, index = [], []
         for ci, c in enumerate(cases):
-            mt, ms = model_tree(c["tree"]), model_tree(c["stree"])
+            mt, ms = model_tree(c["tree"], stale=stale_route(c)), model_tree(c["stree"])
             for name, q in c["queries"].items():
                 lines.append(C.to_sx(["S", FIXED, MODEL_DEPTH, C.cps(q), mt]))
                 index.append((ci, name, "v"))
                 lines.append(C.to_sx(["S", FIXED, MODEL_DEPTH, C.cps(q), ms]))
                 index.append((ci, name, "vs"))
+        n_plain = len(lines)
+        # edited annotations once more: the model applies the edits itself (append / replace) to the parsed base tree
+        for ci, c in enumerate(cases):
+            steps = model_steps(c["route"], c["queries"]["A"])
+            if steps is None or "tree2" not in impl[ci]:
+                continue
+            mb = model_tree(c["base_tree"])
+            for name, q in c["queries"].items():
+                lines.append(C.to_sx(["E", FIXED, MODEL_DEPTH, C.cps(q), mb, steps]))
+                index.append((ci, name, "v"))
         out = C.run_driver(exe, lines)
         pairs = len(lines)
+        edited_pairs = len(lines) - n_plain
         for (ci, name, which), m in zip(index, out):
             got = impl[ci][which].get(name)
             if m[0] == "ok":
@@ -765,8 +1136,10 @@ def run(tier, seed, res, model_ok=True, proof_ok=True):
             hist["verdict"]["rejected" if not isinstance(x, bool) else "match" if x else "no-match"] += 1
             if qd >= 2 and d >= 1:
                 nontrivial.add((c["ann"], c["queries"][name]))
+        hist.setdefault("route", {})
+        hist["route"][c["route"]["kind"]] = hist["route"].get(c["route"]["kind"], 0) + 1
     return {
-        "evaluations": len(cases) * len(cases[0]["queries"]) * 2 + len(soup),
+        "evaluations": len(cases) * len(cases[0]["queries"]) * 3 + len(soup),
         "distinct_nontrivial": len(nontrivial),
         "rule": "corpus (refuted witnesses, parser regressions, value-spelled-like-a-term cases) + random annotations "
                 "(depth 0-4 over 37 spellings of 12 HED 8.3.0 tags incl. values/extensions spelled like schema terms) x query triples A,B,C generated from the grammar (depth 0-3, the combined queries "
@@ -779,9 +1152,11 @@ def run(tier, seed, res, model_ok=True, proof_ok=True):
                             f"{n_exh} cases",
         "disagreements_checked": disagreements,
         "correspondence_cases": pairs + (len(soup) if model_ok else 0),
+        "correspondence_edit_histories": edited_pairs if model_ok else 0,
         "oracle_failures": stats["oracle_failures"],
         "histogram": hist,
         "fixed_semantics": bool(FIXED),
+        "fixed_F4": bool(FIXED_F4),
     }
 
 
@@ -797,9 +1172,14 @@ def replay(payload):
         rc = case["replay_case"]
         tree, stree = list(tup(rc["tree"])), list(tup(rc["stree"]))
         qast = {k: tup(v) for k, v in rc["qast"].items()}
-        c = {"tree": tree, "stree": stree, "ann": ann_text(tree), "shuf": ann_text(stree), "qast": qast,
+        route = rc.get("route") or {"kind": "parse"}
+        c = {"tree": tree, "stree": stree, "ann": ann_text(tree), "shuf": ann_text(stree), "qast": qast, "route": route,
+             "shuf_seed": rc.get("shuf_seed", 0), "base_tree": tree,
              "queries": {k: q_text(v) for k, v in qast.items()}}
-        r = impl_search_case({"ann": c["ann"], "shuf": c["shuf"], "queries": c["queries"]})
+        r = impl_search_case({"tree": tree, "stree": stree, "route": route, "shuf_seed": c["shuf_seed"],
+                              "queries": c["queries"]})
+        print("built from:", c["ann"], "by", route)
+        adopt_built(c, r)
         check_case(c, r, res, {"oracle_failures": 0})
         print("annotation:", c["ann"])
         print("reordered :", c["shuf"])
